@@ -179,3 +179,10 @@ Lemma reseed_all_seeded n b s :
 Proof.
   destruct b as [b|]; cbn; rewrite ?seeds_from_length, ?repeat_length; repeat split; reflexivity.
 Qed.
+
+(* scan tags and consumers: the tag of a consumer's generator resolves back to a generator of the same kind *)
+Lemma consumer_tag_resolves c :
+  exists g, gen_of_tag (consumer_tag c) = Some g /\ tag_of_gen g = consumer_tag c /\ (0 <= consumer_tag c <= 4).
+Proof.
+  unfold consumer_tag. destruct (consumer_gen c) as [| | | |i]; cbn; eexists; (split; [reflexivity | split; [reflexivity | lia]]).
+Qed.
